@@ -17,7 +17,8 @@ FLOORS = {
         "T1": 13,
         "T2": 3,
         "T3": 9,
-        "T4": 2
+        "T4": 2,
+        "F1": 1
     },
     "C04": {
         "T1": 13,
@@ -27,14 +28,18 @@ FLOORS = {
     "C05": {
         "S1": 1,
         "S2": 1,
-        "T4": 1
+        "T4": 1,
+        "F1": 1
     },
     "C07": {
         "I1": 6,
         "I2": 56,
         "I3": 1,
         "I4": 2,
-        "I5": 3
+        "I5": 3,
+        "I10": 1,
+        "I11": 2,
+        "I12": 20
     },
     "C08": {
         "L1": 1,
@@ -43,13 +48,16 @@ FLOORS = {
         "L4": 3,
         "T4": 2,
         "DL1": 1,
-        "L6": 1
+        "L6": 1,
+        "F1": 1,
+        "DL3": 1
     },
     "C09": {
         "E1": 8,
         "E2": 3,
         "T4": 1,
-        "DL1": 1
+        "DL1": 1,
+        "F1": 1
     },
     "C10": {
         "IDX": 4,
@@ -58,7 +66,9 @@ FLOORS = {
     "C11": {
         "IDX": 4,
         "M2": 16,
-        "M3": 26
+        "M3": 26,
+        "I12": 20,
+        "DL3": 1
     },
     "C12": {
         "R1": 28,
@@ -104,7 +114,8 @@ FLOORS = {
     "C19": {
         "Q1": 1,
         "W1": 2,
-        "W2": 204
+        "W2": 204,
+        "F1": 1
     },
     "C20": {
         "B1": 3,
@@ -178,6 +189,9 @@ def c11(prog, rep):
     from . import bufrules as BW
     BW.rule_growth_room(prog, rep, C.C11_UNITS)
     O.rule_m6(prog, rep, C.C11_UNITS)
+    HA.rule_i12(prog, rep)
+    from . import dlist as DL
+    DL.rule_fresh_position(prog, rep, ['src/containers/qlisttbl.c', 'src/containers/qlist.c'])
     rep.explanation = (
         'Structural memory-safety clauses over the 11 anchored units, all CFG paths: M1 every memcpy/strcpy/strncpy whose '
         'operands can share a base object (origins over reaching definitions) must be provably disjoint (affine distance = '
@@ -262,6 +276,8 @@ def c16(prog, rep):
     BL.rule_hex_laws(prog, rep)
     BL.rule_pct_laws(prog, rep)
     BL.rule_codec_framing(prog, rep)
+    BL.rule_codec_purity(prog, rep)
+    BL.rule_query_pairs_stored(prog, rep)
     rep.explanation = (
         'Exhaustive check of every entry of the five codec tables, read from their initialiser lists in the type-checked AST '
         '(located by role and length inside their functions, not by name): URL classification table (256 entries: value is 0 '
@@ -285,6 +301,9 @@ def c07(prog, rep):
     HA.rule_c07(prog, rep)
     HA.rule_i7(prog, rep)
     HA.rule_i8(prog, rep)
+    HA.rule_i10(prog, rep)
+    HA.rule_i11(prog, rep)
+    HA.rule_i12(prog, rep)
     rep.explanation = (
         'I1: the image record types (header, slot, and every record nested by value, incl. the anonymous union) have no pointer, '
         'function-pointer or address-sized member - a type fact. I2: no pointer-to-integer conversion exists in qhasharr.c, no '
@@ -314,6 +333,8 @@ def c01(prog, rep):
     E.rule_r2_fill(prog, rep, [T.UNIT])
     T.rule_t6(prog, rep)
     T.rule_fixup_bypass(prog, rep, rid='T9')
+    from . import bufrules as BW
+    BW.rule_fmt_complete(prog, rep, [T.UNIT])
     rep.explanation = (
         'Structural clauses of "exact sorted map" visible in code shape, over all CFG paths of qtreetbl.c: T1 node keys are only '
         'compared through tbl->compare (one orientation for all 7 call sites), copied, freed or moved - never inspected directly '
@@ -361,6 +382,8 @@ def c05(prog, rep):
     CH.rule_s5_cursor(prog, rep, [(CH.UNIT, 'qhashtbl_getnext', 1)])
     CH.rule_s6_clear(prog, rep)
     CH.rule_s7_fresh_cursor(prog, rep, [(CH.UNIT, 'qhashtbl_getnext', 1)])
+    from . import bufrules as BW
+    BW.rule_fmt_complete(prog, rep, [CH.UNIT])
     rep.explanation = (
         'Sibling-agreement and protocol rules on qhashtbl.c: S1 put/get/remove compute the chain slot from the same closed '
         'expression (hash function, length argument, modulus field, obtained by expanding local definitions) and the walk resumes '
@@ -455,6 +478,8 @@ def c08(prog, rep):
     DL.rule_load_appends(prog, rep)
     from . import bufrules as BW
     BW.rule_growth_room(prog, rep, [LT.UNIT])
+    BW.rule_fmt_complete(prog, rep, [LT.UNIT])
+    DL.rule_fresh_position(prog, rep, [LT.UNIT])
     rep.explanation = (
         'Structural clauses of the ordered-multimap property in qlisttbl.c: L1 load returns a count incremented in the loading loop '
         'under the put result; L2 the sort exchanges neighbours only for a strictly positive comparison (stability) and exchanges '
@@ -478,6 +503,8 @@ def c09(prog, rep):
     from . import dlist as DL
     DL.rule_unlink(prog, rep, LR.LIST)
     DL.rule_link(prog, rep, LR.LIST)
+    from . import bufrules as BW
+    BW.rule_fmt_complete(prog, rep, ['src/containers/qgrow.c'])
     rep.explanation = (
         'E1: through the method table, every queue insert variant (push/pushstr/pushint) resolves to one list end and every '
         'remove/peek variant (pop*/get*) to the opposite end (FIFO); every stack variant to the same end (LIFO); every grow add '
@@ -542,6 +569,8 @@ def c19(prog, rep):
     SR.rule_tailindex(prog, rep)
     SR.rule_bytetable_index(prog, rep, ['src/utilities/qstring.c'], control=['src/utilities/qencode.c'])
     SR.rule_snprintf_fit(prog, rep, ['src/utilities/qstring.c'])
+    from . import bufrules as BW
+    BW.rule_fmt_complete(prog, rep, ['src/utilities/qstring.c'])
     rep.explanation = (
         'Q1: for the size-parameterised routines of qstring.c (qstrcpy, qstrncpy, qstrgets - found by their `char *dst, size_t size` '
         'signature) every write into the destination is bounded: block copies and indexed stores need the must-fact len < size '
